@@ -1,0 +1,28 @@
+// -*- Mode: Go; indent-tabs-mode: t -*-
+//go:build verif
+
+package state
+
+// Simulation ordering hooks, only compiled with the "verif" build tag.
+// State.Tasks() and State.Changes() return Go map iteration order; a
+// deterministic simulator needs to own that order.
+
+// VerifOrderTasks, when set, may reorder (never add or remove) the result
+// of State.Tasks() in place.
+var VerifOrderTasks func(ts []*Task)
+
+// VerifOrderChanges, when set, may reorder the result of State.Changes()
+// in place.
+var VerifOrderChanges func(cs []*Change)
+
+func verifOrderTasks(ts []*Task) {
+	if VerifOrderTasks != nil {
+		VerifOrderTasks(ts)
+	}
+}
+
+func verifOrderChanges(cs []*Change) {
+	if VerifOrderChanges != nil {
+		VerifOrderChanges(cs)
+	}
+}
